@@ -626,6 +626,8 @@ struct Worker {
     harness_section: bool,
     /// the caller thread currently runs with credentials other than the supervisor's
     alt_creds: bool,
+    /// the caller thread has unshared its descriptor table: nothing can be executed on its behalf
+    private_table: bool,
 }
 
 pub struct Universe {
@@ -781,7 +783,7 @@ impl Universe {
             cfg,
             listener,
             workers: (0..nworkers)
-                .map(|_| Worker { tid: 0, state: WState::Running, notif: None, cur_op: None, has_job: false, pending_create: None, op_steps: 0, priority: 0, harness_section: false, alt_creds: false })
+                .map(|_| Worker { tid: 0, state: WState::Running, notif: None, cur_op: None, has_job: false, pending_create: None, op_steps: 0, priority: 0, harness_section: false, alt_creds: false, private_table: false })
                 .collect(),
             launcher_notif: None,
             pid: unsafe { libc::getpid() },
@@ -1186,13 +1188,19 @@ impl Universe {
                         self.workers[t].harness_section = false;
                     }
                     seam::HC_HARNESS => {
+                        // (argument 2: "my descriptor table is private from now on", still inside the section)
+                        if n.data.args[2] == 2 {
+                            self.workers[t].private_table = true;
+                        }
                         self.workers[t].harness_section = n.data.args[2] != 0;
                     }
                     seam::HC_PLANT => {
                         let fdn = n.data.args[1] as i32;
                         if n.data.args[2] != 0 {
                             if fdn >= 0 && fdn < HARNESS_FD_MIN && sys::fcntl_getfd(fdn) < 0 {
-                                if let Ok(d) = sys::openat(libc::AT_FDCWD, b"/mnt/w/outside/secret", libc::O_RDONLY, 0) {
+                                // 1: a foreign file; 2: a directory outside the root
+                                let decoy = if n.data.args[2] == 2 { sys::openat(libc::AT_FDCWD, b"/mnt/w/outside/landing", libc::O_RDONLY | libc::O_DIRECTORY, 0) } else { sys::openat(libc::AT_FDCWD, b"/mnt/w/outside/secret", libc::O_RDONLY, 0) };
+                                if let Ok(d) = decoy {
                                     if d != fdn {
                                         unsafe { libc::dup3(d, fdn, libc::O_CLOEXEC) };
                                         sys::close(d);
@@ -1557,7 +1565,7 @@ impl Universe {
             // injected EAGAINs are unaffected. Not done for procfs (the call
             // depends on the calling thread: thread-self) or when the caller
             // thread runs with other credentials.
-            if nr == libc::SYS_openat2 && answer == Answer::Continue && !self.workers[t].alt_creds {
+            if nr == libc::SYS_openat2 && answer == Answer::Continue && !self.workers[t].alt_creds && !self.workers[t].private_table {
                 let on_tree = matches!(ev.dir.as_ref().map(|d| &d.prov), Some(Prov::Tree(..)) | Some(Prov::TreeUnknown));
                 if on_tree {
                     let mut retries = 0u64;
